@@ -24,6 +24,7 @@ type C15Probe struct {
 	Read   ReadPlan `json:"read"`
 	Writer string   `json:"writer,omitempty"` // sw | plain | buf | builder
 	Trunc  int      `json:"trunc"`            // early EOF after this many bytes; -1: none
+	Stdin  string   `json:"stdin,omitempty"`  // cli: "" pipe fed in scheduled chunks | file: a regular file (tool < file)
 }
 
 type C15Plan struct {
@@ -212,18 +213,33 @@ func callEntry(rc Recipe, in []byte, pr C15Probe) (co callOut) {
 	return
 }
 
-func runCLI(tool string, in []byte, chunks []int) (out []byte, stderr []byte, code int, err error) {
+func runCLI(tool string, in []byte, chunks []int, mode string) (out []byte, stderr []byte, code int, err error) {
 	dir := os.Getenv("VERIF_CLI_DIR")
 	if dir == "" {
 		return nil, nil, 0, fmt.Errorf("VERIF_CLI_DIR not set: CLI binaries unavailable")
 	}
 	cmd := exec.Command(filepath.Join(dir, tool))
-	stdin, e := cmd.StdinPipe()
-	if e != nil {
-		return nil, nil, 0, e
-	}
 	var so, se bytes.Buffer
 	cmd.Stdout, cmd.Stderr = &so, &se
+	var stdin io.WriteCloser
+	if mode == "file" {
+		f, e := os.CreateTemp(dir, "stdin-*")
+		if e != nil {
+			return nil, nil, 0, e
+		}
+		defer os.Remove(f.Name())
+		f.Write(in)
+		f.Seek(0, 0)
+		defer f.Close()
+		cmd.Stdin = f
+		stdin = nopWriteCloser{}
+		in = nil
+	} else {
+		var e error
+		if stdin, e = cmd.StdinPipe(); e != nil {
+			return nil, nil, 0, e
+		}
+	}
 	if e := cmd.Start(); e != nil {
 		return nil, nil, 0, e
 	}
@@ -265,6 +281,11 @@ func runCLI(tool string, in []byte, chunks []int) (out []byte, stderr []byte, co
 	}
 	return so.Bytes(), se.Bytes(), 0, nil
 }
+
+type nopWriteCloser struct{}
+
+func (nopWriteCloser) Write(b []byte) (int, error) { return len(b), nil }
+func (nopWriteCloser) Close() error                { return nil }
 
 func runC15(planJSON []byte) (*RunResult, error) {
 	var pl C15Plan
@@ -448,13 +469,16 @@ func runC15(planJSON []byte) (*RunResult, error) {
 	}
 
 	checkCLI := func(pr C15Probe) error {
-		out, se, code, err := runCLI(pl.CLI, in, pr.Read.Chunks)
+		out, se, code, err := runCLI(pl.CLI, in, pr.Read.Chunks, pr.Stdin)
 		if err != nil {
 			return err
 		}
 		res.Evals++
 		res.Nontrivial++
 		res.count("cli_execs."+pl.CLI, 1)
+		if pr.Stdin == "file" {
+			res.count("cli_stdin_regular_file", 1)
+		}
 		fmt.Fprintf(dig, "cli %s out=%s code=%d\n", pl.CLI, digestBytes(out), code)
 		ref := refFor(-1)
 		if ref.panicked != "" {
@@ -535,7 +559,11 @@ func runC15(planJSON []byte) (*RunResult, error) {
 	if pl.CLI != "" {
 		for i := 0; i < 2; i++ {
 			s := pl.Schedules[r.Intn(len(pl.Schedules))]
-			if err := checkCLI(C15Probe{Entry: "cli", Read: ReadPlan{Chunks: s.Chunks}, Trunc: -1}); err != nil {
+			mode := ""
+			if i == 1 && r.Bool(0.5) {
+				mode = "file"
+			}
+			if err := checkCLI(C15Probe{Entry: "cli", Read: ReadPlan{Chunks: s.Chunks}, Trunc: -1, Stdin: mode}); err != nil {
 				return nil, err
 			}
 		}
